@@ -98,6 +98,21 @@ def _rect(c):
         o["geoseq"] = [enc.ints(la), enc.ints(lo)]
     else:
         o["geoseq"] = []
+    # the grid objects built from the same axes: node coordinates, sizes, longitude convention
+    tseq = np.arange(3.0)
+    rg = Grid.RegularGrid(tseq, [a.copy() for a in axes], silence_level=3)
+    o["regseq"] = [enc.ints(rg.sequence(k)) for k in range(len(axes))]
+    o["regN"] = int(rg.N)
+    o["regsize"] = [int(rg.grid_size()["time"]), int(rg.grid_size()["space"])]
+    if len(axes) == 2:
+        gg = GeoGrid.RegularGrid(tseq, (axes[0].copy(), axes[1].copy()), silence_level=3)
+        o["georegseq"] = [enc.ints(gg.lat_sequence()), enc.ints(gg.lon_sequence())]
+        # longitudes given in 0..360 (the second axis shifted into that range) in the -180..180 convention
+        lon360 = np.mod(np.asarray(gg.lon_sequence(), dtype=float), 360.0)
+        o["lon360"] = enc.ints(lon360)
+        o["lon180"] = enc.ints(gg.convert_lon_coordinates(lon360))
+    else:
+        o["georegseq"], o["lon360"], o["lon180"] = [], [], []
     return o
 
 
